@@ -287,3 +287,76 @@ def activation_integrity_obligations(repo, chk, rule, what="the probes that are 
     if n == 0:
         from ..core import AnalysisError
         raise AnalysisError("no rollback journal found in Probe._install_tooling / overlay.autotool")
+
+
+def unfresh_local_mutations(repo, prefixes):
+    """In the given modules: a local name that is changed in place (mutating method, item store / delete, augmented item assignment) although
+    one of its definitions is not a container created on the spot (display, comprehension, dict()/list()/set()/sorted() call, .copy(),
+    a class instantiated there): it may be state that belongs to another object -- e.g. the live capture table `build()` returns for a root
+    accumulator -- and the change leaks from one activation / embedding into another.  Parameters count as not fresh.
+    -> (sites examined, [description])"""
+    import ast
+    from ..core import norm, walk_local
+    FRESH_CALLS = {"dict", "list", "set", "sorted", "tuple", "frozenset", "defaultdict", "deepcopy", "copy"}
+    classes = {c.rsplit(".", 1)[-1] for c in repo.classes}
+    out, sites = [], 0
+
+    def fresh(e):
+        if isinstance(e, (ast.Dict, ast.List, ast.Set, ast.DictComp, ast.ListComp, ast.SetComp, ast.Constant)):
+            return True
+        if isinstance(e, ast.Call):
+            if isinstance(e.func, ast.Name) and (e.func.id in FRESH_CALLS or e.func.id in classes):
+                return True
+            if isinstance(e.func, ast.Attribute) and e.func.attr in ("copy", "snapshot"):
+                return True
+        if isinstance(e, ast.IfExp):
+            return fresh(e.body) and fresh(e.orelse)
+        return False
+
+    def definitions(fi, name):
+        """every binding of `name` visible in fi: its own, or those of the enclosing function for a free variable"""
+        f = fi
+        while f is not None:
+            params = {a.arg for a in f.node.args.args + f.node.args.kwonlyargs + f.node.args.posonlyargs} | {x.arg for x in (f.node.args.vararg, f.node.args.kwarg) if x}
+            defs = [n for n in walk_local(f.node) if isinstance(n, (ast.Assign, ast.AnnAssign, ast.AugAssign, ast.For, ast.With, ast.NamedExpr))]
+            vals = []
+            for n in defs:
+                if isinstance(n, ast.Assign):
+                    for t in n.targets:
+                        if isinstance(t, ast.Name) and t.id == name:
+                            vals.append(n.value)
+                        elif isinstance(t, (ast.Tuple, ast.List)) and any(isinstance(x, ast.Name) and x.id == name for x in ast.walk(t)):
+                            vals.append(None)
+                elif isinstance(n, ast.AnnAssign) and isinstance(n.target, ast.Name) and n.target.id == name and n.value is not None:
+                    vals.append(n.value)
+                elif isinstance(n, ast.NamedExpr) and n.target.id == name:
+                    vals.append(n.value)
+                elif isinstance(n, ast.For) and any(isinstance(x, ast.Name) and x.id == name for x in ast.walk(n.target)):
+                    vals.append(None)
+                elif isinstance(n, ast.With) and any(i.optional_vars is not None and any(isinstance(x, ast.Name) and x.id == name for x in ast.walk(i.optional_vars)) for i in n.items):
+                    vals.append(None)
+            if name in params:
+                vals.append(None)
+            if vals:
+                return vals
+            f = f.parent
+        return None          # a module-level name: state of the module, meant to be shared
+    for q, fi in sorted(repo.functions.items()):
+        if not q.startswith(tuple(prefixes)):
+            continue
+        for n in walk_local(fi.node):
+            recv, how = None, None
+            if isinstance(n, ast.Call) and isinstance(n.func, ast.Attribute) and n.func.attr in MUTATING_METHODS and isinstance(n.func.value, ast.Name):
+                recv, how = n.func.value.id, norm(n)[:70]
+            elif isinstance(n, ast.Subscript) and isinstance(n.ctx, (ast.Store, ast.Del)) and isinstance(n.value, ast.Name):
+                recv, how = n.value.id, norm(n)[:70] + (" = ..." if isinstance(n.ctx, ast.Store) else " (deleted)")
+            if recv is None or recv in ("self", "cls"):
+                continue
+            vals = definitions(fi, recv)
+            if vals is None:
+                continue
+            sites += 1
+            bad = [("a parameter / loop variable" if v is None else norm(v)[:60]) for v in vals if v is None or not fresh(v)]
+            if bad:
+                out.append(f"{q}: `{recv}` is changed in place by `{how}` but may be {' / '.join(bad)}")
+    return sites, out
